@@ -163,9 +163,21 @@ fn poly_from(c: &[f64]) -> Polynomial<RealSemiring> {
 
 /// set the weights of `var` through the C setters and on the native tables
 fn set_weights(ctx: &mut Ctx, wt: &mut WeightTables, var: u64, r: &mut Rng) -> R {
-    let (l, h) = (r.below(9) as f64 / 4.0, r.below(9) as f64 / 4.0);
-    let cl = Complex { re: r.below(5) as f64 / 2.0, im: r.below(5) as f64 / 2.0 - 1.0 };
-    let ch = Complex { re: r.below(5) as f64 / 2.0, im: r.below(5) as f64 / 2.0 - 1.0 };
+    // one call in four uses the values shortcuts get wrong: zero, one, negative, equal low and high
+    let sp = r.below(4) == 0;
+    let same = sp && r.below(3) == 0;
+    let re = |r: &mut Rng| if sp { *r.pick(&[0.0, 1.0, -1.0, -0.5, 2.0]) } else { r.below(9) as f64 / 4.0 };
+    let (l, h) = (re(r), re(r));
+    let h = if same { l } else { h };
+    let cx = |r: &mut Rng| {
+        if sp {
+            *r.pick(&[Complex { re: 0.0, im: 0.0 }, Complex { re: 1.0, im: 0.0 }, Complex { re: 0.0, im: 1.0 }, Complex { re: -1.0, im: 0.0 }])
+        } else {
+            Complex { re: r.below(5) as f64 / 2.0, im: r.below(5) as f64 / 2.0 - 1.0 }
+        }
+    };
+    let (cl, ch) = (cx(r), cx(r));
+    let ch = if same { cl } else { ch };
     // mostly short polynomials; sometimes the boundary lengths around the 32-coefficient limit, or none
     let plen = |r: &mut Rng| -> u64 {
         match r.below(12) {
